@@ -24,6 +24,7 @@ import (
 	"time"
 
 	"github.com/jech/storrent/bitmap"
+	"github.com/jech/storrent/config"
 	"github.com/jech/storrent/hash"
 	"github.com/jech/storrent/peer"
 	"github.com/jech/storrent/pex"
@@ -59,6 +60,7 @@ type caseCfg struct {
 	port     int
 	badInfo  bool // the "metadata" is not a valid info dictionary (authentic but unparsable)
 	metaGe   bool // cosmetic: what the model is told about the gotMetadata guard
+	burst    int  // length of the burst sent while the torrent is not reading (not part of the token: replays carry the ops)
 	bigTor   bool
 }
 
@@ -157,6 +159,10 @@ type world struct {
 	twin       bool
 	quiet      bool // a twin rebuilt by replay: nothing is emitted, counted or reported
 	poisoned   bool // a call of the real code never returned; the world is abandoned
+	withhold   bool // the torrent is not reading: emitted events stay in its channel / the overflow list
+	held       []heldOp
+	pendingEv  int      // events emitted while withholding, not yet attributed
+	stale      []uint32 // blocks that were queued but not sent when the remote last choked us
 	last       stepAcc
 	fastRate   bool
 	finalWait  int
@@ -379,11 +385,22 @@ func (w *world) peerSnap(wl int) string {
 	for _, p := range st.Pex {
 		px = append(px, fmt.Sprintf("%s:%d:%d", ipHex(p.Addr.Addr()), p.Addr.Port(), p.Flags))
 	}
-	return fmt.Sprintf("info=%s bm=%s seed=%s un=%s in=%s au=%s si=%s ai=%s ge=%s ext=%d,%d,%d,%d uo=%s port=%d rq=%d q=%s r=[%s] up=[%s] fast=%s pex=[%s] tick=%s my=%s w=%d",
+	// the membership bitmap of the request structure, over every block number plus a margin
+	var mb []string
+	nb := 16
+	if st.HasInfo {
+		nb += int((w.t.Pieces.Length() + CS - 1) / CS)
+	}
+	for c := 0; c < nb; c++ {
+		if w.p.VerifMember(uint32(c)) {
+			mb = append(mb, strconv.Itoa(c))
+		}
+	}
+	return fmt.Sprintf("info=%s bm=%s seed=%s un=%s in=%s au=%s si=%s ai=%s ge=%s ext=%d,%d,%d,%d uo=%s port=%d rq=%d q=%s r=[%s] mb=[%s] up=[%s] fast=%s pex=[%s] tick=%s my=%s w=%d",
 		b01(st.HasInfo), bm, seedTok(st), b01(st.Unchoked), b01(st.Interested), b01(st.AmUnchoking),
 		b01(st.ShouldInterested), b01(st.AmInterested), b01(st.GotExtended), st.PexExt, st.MetadataExt,
 		st.DontHaveExt, st.UploadOnlyExt, b01(st.UploadOnly), st.Port, st.ReqQ, u32s(st.Queue),
-		strings.Join(r, ","), strings.Join(up, ","), u32s(st.Fast), strings.Join(px, ","),
+		strings.Join(r, ","), strings.Join(mb, ","), strings.Join(up, ","), u32s(st.Fast), strings.Join(px, ","),
 		b01(st.UploadTicking), vhlib.Payload(st.MyBitmap), wl)
 }
 
@@ -517,6 +534,14 @@ func (w *world) drainEvents() []peer.TorEvent {
 			return out
 		}
 	}
+}
+
+// heldOp: an op executed while the torrent's consumption is withheld; its observation line
+// is completed (events it emitted) when the torrent starts reading again.
+type heldOp struct {
+	op, res, snap string
+	msgs          []string
+	nev           int
 }
 
 type stepAcc struct {
@@ -721,6 +746,7 @@ func (w *world) runPeer(kind string, opText string, wire int, m protocol.Message
 		default:
 			op = fmt.Sprintf("%s 0 %s", kind, opText)
 		}
+		w.flushAbandoned()
 		w.emit(op, "hang")
 		w.count(kind+":"+name+":hang", opText, true)
 		w.violate("hang:peer:"+kind+":"+name+":"+stTok, "the peer handler did not return within "+opTimeout.String()+" on "+clip(opText), w.c.Case())
@@ -733,6 +759,46 @@ func (w *world) runPeer(kind string, opText string, wire int, m protocol.Message
 	acc.alloc += ta
 	wl := len(w.p.VerifWriter())
 	outs := w.drainWriter()
+	if _, isChoke := m.(protocol.Choke); isChoke && pre.CanFast {
+		w.stale = append([]uint32(nil), pre.Queue...)
+	}
+	if w.withhold {
+		// the torrent is not reading: count what was emitted, complete the line later
+		tot := len(w.t.Event) + len(w.p.VerifEvents())
+		h := heldOp{res: errStr(err), snap: w.peerSnap(wl), nev: tot - w.pendingEv}
+		w.pendingEv = tot
+		if pn != "" {
+			h.res = "panic"
+		}
+		for _, o := range outs {
+			h.msgs = append(h.msgs, outMsgStr(o))
+		}
+		switch kind {
+		case "msg":
+			h.op = fmt.Sprintf("msg 00 %d %s", ta, opText)
+		default:
+			h.op = fmt.Sprintf("%s %d %s", kind, ta, opText)
+		}
+		w.held = append(w.held, h)
+		name := strings.SplitN(opText, " ", 2)[0]
+		w.count(kind+":"+name+":held", opText, true)
+		if pn != "" {
+			w.release()
+			w.violate("panic:peer:"+kind+":"+name+":"+infoTok(w), "peer handler panicked: "+pn+" on "+clip(opText), w.c.Case())
+			w.dead = true
+		}
+		if err != nil {
+			w.dead = true
+		}
+		bound := allocBound(m, acc.wire, w.nmax(), uint64(w.t.Pieces.PieceSize()), len(w.info)) + touched
+		if kind == "msg" && acc.alloc > bound && hangs == 0 {
+			w.release()
+			w.violate("alloc:"+name+":"+infoTok(w), fmt.Sprintf("%d bytes allocated for a %d-byte message (bound %d): %s", acc.alloc, acc.wire, bound, clip(opText)), w.c.Case())
+		}
+		w.level = 0
+		w.setLevel(0)
+		return
+	}
 	evs := w.drainEvents()
 	var os []string
 	for _, o := range outs {
@@ -856,6 +922,109 @@ func stateTok(w *world) string {
 	return s
 }
 
+// hold: from now on the torrent does not read its event channel (it is busy elsewhere); the
+// property says a message is handled to the end regardless.
+func (w *world) hold() {
+	if w.withhold {
+		return
+	}
+	w.withhold = true
+	w.pendingEv = len(w.t.Event) + len(w.p.VerifEvents())
+	w.emit("env hold", "ok")
+}
+
+// release: the torrent reads again.  Everything emitted meanwhile is drained in order,
+// attributed to the ops that produced it (their observation lines are completed and
+// emitted now), then handled by the torrent.
+func (w *world) release() {
+	if !w.withhold {
+		return
+	}
+	w.withhold = false
+	evs := w.drainEvents()
+	k := 0
+	for _, h := range w.held {
+		os := append([]string(nil), h.msgs...)
+		for i := 0; i < h.nev && k < len(evs); i++ {
+			s, _ := tevCanon(evs[k], vhlib.Payload)
+			os = append(os, "e:"+s)
+			k++
+		}
+		w.emit(h.op, fmt.Sprintf("res=%s out=[%s] %s aok", h.res, strings.Join(os, ","), h.snap))
+		w.emit("env setw 0", "ok")
+	}
+	w.held = nil
+	w.emit("env release", "ok")
+	for _, e := range evs {
+		if w.poisoned {
+			break
+		}
+		if _, ok := tevCanon(e, vhlib.Payload); ok {
+			w.feedTor(e, nil, false)
+		} else {
+			vhlib.Recover(func() { tor.VerifHandleEvent(context.Background(), w.t, e) })
+		}
+	}
+	if !w.poisoned {
+		w.internalEvents()
+	}
+}
+
+// flushAbandoned: a call hung while ops were held; their lines are emitted as they are so
+// that the case's op list is complete.
+func (w *world) flushAbandoned() {
+	for _, h := range w.held {
+		w.emit(h.op, "abandoned")
+	}
+	w.held = nil
+	w.withhold = false
+}
+
+// tick: the torrent's request ticker fires (periodicRequest: the scheduler, including the
+// idle prefetch that walks the peers' allowed-fast sets).
+func (w *world) tick() {
+	if w.withhold || w.poisoned {
+		return
+	}
+	_, pn, hung := guarded(func() { tor.VerifPeriodicRequest(context.Background(), w.t) })
+	res := "ok"
+	switch {
+	case hung:
+		res = "hang"
+		w.emit("tick -", "res=hang")
+		w.violate("hang:tor:tick:"+stateTok(w), "periodicRequest did not return within "+opTimeout.String(), w.c.Case())
+		w.poisoned, w.dead = true, true
+		hangs++
+		return
+	case pn != "":
+		res = "panic"
+	}
+	// chunks the scheduler reserved during the tick (tor.request), in the op line
+	pend := w.takePending()
+	var reserved []string
+	for i, pe := range pend {
+		if rq, ok := pe.(peer.PeerRequest); ok {
+			for _, c := range rq.Chunks {
+				reserved = append(reserved, strconv.FormatUint(uint64(c), 10))
+			}
+			pend[i] = accounted{rq}
+		}
+	}
+	w.mu.Lock()
+	w.pend = append(pend, w.pend...)
+	w.mu.Unlock()
+	rsv := "-"
+	if len(reserved) > 0 {
+		rsv = strings.Join(reserved, ".")
+	}
+	w.emit("tick "+rsv, "res="+res)
+	w.count("tick:"+res, "tick", true)
+	if pn != "" {
+		w.violate("panic:tor:tick:"+infoTok(w), "the torrent's periodic request (scheduler / idle piece picking) panicked on state a peer's messages produced: "+pn, w.c.Case())
+	}
+	w.pumpPending()
+}
+
 func infoTok(w *world) string {
 	if w.p.VerifState().HasInfo {
 		return "info"
@@ -885,6 +1054,9 @@ func (w *world) syncLevel() {
 
 // pumpPending feeds the torrent's queued commands to the peer, as ops of their own.
 func (w *world) pumpPending() {
+	if w.withhold {
+		return
+	}
 	for round := 0; round < 50; round++ {
 		pend := w.takePending()
 		if len(pend) == 0 {
@@ -934,6 +1106,10 @@ func (w *world) exitPeer() {
 	if w.poisoned {
 		return
 	}
+	w.release()
+	if w.poisoned {
+		return
+	}
 	w.runPeer("exit", "exit", 0, nil, func() error { peer.VerifExit(w.p); return nil })
 	if w.poisoned {
 		return
@@ -965,6 +1141,7 @@ func main() {
 	c := vhlib.Init("c05")
 	c.Rep.Rule = "real peer.handleMessage/handleEvent + tor.handleEvent vs Lean model: result class, emitted messages/events, peer+torrent snapshot, TotalAlloc<=2*model+64KiB; oracle: no panic, tor handler never errors, exit retracts everything, alloc<=128*wire+12*Nmax+const"
 	debug.SetGCPercent(-1)
+	config.MemoryMark = 1 << 30
 	peer.VerifResetNumUnchoking()
 	wd := time.AfterFunc(40*time.Minute, func() {
 		fmt.Fprintln(os.Stderr, "c05: watchdog")
